@@ -138,7 +138,8 @@ def make(max_packet, buffer_size, epnum):
         cov("second_packet_starts_after_last", z3.And(O["s_valid"] == 1, s_first == 1, q.n_r != 0, q.n_r == q.k))
         cov("packet_committed", z3.And(commit_ev, q.n_p == max_packet))
         cov("packet_dropped_for_lack_of_space", z3.And(closing, tgt, z3.Not(take), rx.cl_c == 1, rx.pidx == max_packet - 1))
-        cov("packet_taken_into_partly_filled_buffer", z3.And(closing, tgt, take, q.unread != 0, rx.pidx == max_packet - 1))
+        if D > max_packet:                      # (with buffer_size == max_packet_size a packet only fits into an empty buffer)
+            cov("packet_taken_into_partly_filled_buffer", z3.And(closing, tgt, take, q.unread != 0, rx.pidx == max_packet - 1))
         cov("corrupted_packet_discarded", z3.And(discard_ev, q.n_p != 0))
         cov("packet_for_other_endpoint", z3.And(pb, z3.Not(tgt)))
         cov("stream_last", z3.And(at_k, s_last == 1, s_first == 0, I["s_ready"] == 1))
